@@ -258,9 +258,9 @@ func runCase(ep *endpoint, srv *scripted, c scase, measureLeak bool) outcome {
 	var ctx context.Context
 	var cancel context.CancelFunc
 	if hasDeadline {
-		ctx, cancel = context.WithTimeout(parent, deadlineAfter)
+		ctx, cancel = kctx.endable(parent, deadlineAfter)
 	} else {
-		ctx, cancel = context.WithCancel(parent)
+		ctx, cancel = kctx.endable(parent, 0)
 	}
 	defer cancel()
 	if !anon {
